@@ -26,9 +26,16 @@ type inst struct {
 
 func newInst(rom string) *inst { return newInstAudio(rom, false) }
 
-func newInstAudio(rom string, audio bool) *inst {
+func newInstAudio(rom string, audio bool) *inst { return newInstOpt(rom, audio, false) }
+
+// noWriter: the instance is configured without a serial writer (its SB writes go nowhere - certainly not to a neighbour)
+func newInstOpt(rom string, audio, noWriter bool) *inst {
 	s := &bytes.Buffer{}
-	return &inst{gameboy.New(gameboy.Config{RomFilename: rom, DisableVideoOutput: true, DisableAudioOutput: !audio, SerialWriter: s}), s}
+	cfg := gameboy.Config{RomFilename: rom, DisableVideoOutput: true, DisableAudioOutput: !audio, SerialWriter: s}
+	if noWriter {
+		cfg.SerialWriter = nil
+	}
+	return &inst{gameboy.New(cfg), s}
 }
 
 // finalDigest releases the instance's outputs and digests what its speakers received
@@ -85,7 +92,7 @@ func multiScenario(id string, roms []string, order []int, sched string, frames i
 		// are released at the end, in creation order, and what its speakers received is part of the comparison
 		audio := sched == "frame-audio"
 		for i, r := range roms {
-			in := newInstAudio(r, audio)
+			in := newInstOpt(r, audio, audio && i%2 == 1)
 			for f := 0; f < frames; f++ {
 				in.gb.VerifRunFrame(context.Background())
 				sc.Ev = append(sc.Ev, []any{"solo", i, f, gbDigest(in.gb, in.serial)})
@@ -96,7 +103,10 @@ func multiScenario(id string, roms []string, order []int, sched string, frames i
 		}
 		ins := make([]*inst, len(roms))
 		for _, i := range order {
-			ins[i] = newInstAudio(roms[i], audio)
+			if sched == "conc" {
+				continue // created inside the goroutines below, concurrently
+			}
+			ins[i] = newInstOpt(roms[i], audio, audio && i%2 == 1)
 		}
 		if sched == "frame" || audio {
 			for f := 0; f < frames; f++ {
@@ -125,6 +135,7 @@ func multiScenario(id string, roms []string, order []int, sched string, frames i
 			wg.Add(1)
 			go func(i int) {
 				defer wg.Done()
+				ins[i] = newInst(roms[i]) // creation is part of what runs concurrently
 				for f := 0; f < frames; f++ {
 					ins[i].gb.VerifRunFrame(context.Background())
 					res[i] = append(res[i], gbDigest(ins[i].gb, ins[i].serial))
